@@ -29,7 +29,9 @@ def _verify_one(args):
     W = World(REPO)
     if kind == 'fn':
       c = [c for c in R.for_prop(prop) if c.key == name][0]
-      r = verify_function(W, R, c, prop, timeout_ms, recheck=recheck, sample=recheck)
+      bpath = os.path.join(VERIF, 'baseline', f'{prop}.json')
+      alpha = (json.load(open(bpath)).get('alpha', {}) if os.path.exists(bpath) else {}).get(name)
+      r = verify_function(W, R, c, prop, timeout_ms, recheck=recheck, sample=recheck, alpha=alpha)
       extra = dict(replay=c.replay, bounded=c.bounded, note=c.note)
     else:
       l = [l for l in R.lemmas if l.name == name and l.prop == prop][0]
@@ -37,7 +39,7 @@ def _verify_one(args):
       extra = dict(replay=None, bounded=None, note=l.note)
     return dict(
         kind=kind, target=r.target, status=r.status, error=r.error, paths=r.paths, secs=round(r.secs, 3),
-        hash=r.hash, lines=r.lines, inlined=sorted(r.inlined), used_contracts=sorted(r.used_contracts),
+        hash=r.hash, lines=r.lines, alpha=getattr(r, 'alpha', None), alpha_map=getattr(r, 'alpha_map', {}), inlined=sorted(r.inlined), used_contracts=sorted(r.used_contracts),
         dropped=sorted(r.dropped), exits=r.exits, covers=r.covers, samples=getattr(r, 'samples', []), **extra,
         obligations=[dict(name=o.name, kind=o.kind, result=o.result, secs=round(o.secs, 4), backend=o.backend,
                           text=o.info.get('text'), loopfree=o.loopfree, abstracted=o.abstracted, cvc5=o.info.get('cvc5'),
@@ -73,7 +75,10 @@ def load_known(prop):
   p = os.path.join(VERIF, 'known_findings.json')
   if not os.path.exists(p):
     return []
-  return [f for f in json.load(open(p)).get('findings', []) if f['property'] == prop]
+  # the property's own findings first; then those of other properties: a stand-in written for another property runs here
+  # when a contract shared with that property loses its proof, and the same failing input is still that listed finding
+  fs = json.load(open(p)).get('findings', [])
+  return [f for f in fs if f['property'] == prop] + [f for f in fs if f['property'] != prop]
 
 
 def matches_finding(f, viol):
@@ -116,8 +121,14 @@ def main(argv=None):
   if not jobs and not R.bounded_checks.get(prop):
     print(f'CHECKER-ERROR property={prop}: no contracts registered')
     return 3
-  with mp.get_context('fork').Pool(min(a.jobs, max(1, len(jobs)))) as pool:
-    results = pool.map(_verify_one, jobs, chunksize=1) if jobs else []
+  from pyvc.jobs import run_jobs
+  def _lost(job, reason, kills):
+    c = next((c for c in R.for_prop(prop) if c.key == job[1]), None) if job[0] == 'fn' else None
+    return dict(kind=job[0], target=job[1], status='timeout', error=f'job abandoned: {reason}', paths=0, secs=0, hash=None, lines=None,
+                inlined=[], used_contracts=[], dropped=[], exits={}, covers=0, obligations=[], replay=None,
+                bounded=c.bounded if c is not None else None, note=c.note if c is not None else '')
+  hard_limit = float(os.environ.get('PYVC_HARD_LIMIT_S', 600 if tier == 'quick' else 3600))
+  results = run_jobs(_verify_one, jobs, min(a.jobs, max(1, len(jobs))), hard_limit, _lost) if jobs else []
 
   # ---- baseline of discharged clause ids ----------------------------------------------------
   bpath = os.path.join(VERIF, 'baseline', f'{prop}.json')
@@ -129,7 +140,8 @@ def main(argv=None):
       print(f'baseline NOT written: not proved: {[(r["target"], r["status"], (r["error"] or "")[:120]) for r in bad]}')
       return 3
     json.dump(dict(property=prop, clause_ids=discharged_ids,
-                   functions={r['target']: r['hash'] for r in results}), open(bpath, 'w'), indent=1)
+                   functions={r['target']: r['hash'] for r in results},
+                   alpha={r['target']: r['alpha'] for r in results if r.get('alpha')}), open(bpath, 'w'), indent=1)
     print(f'baseline written: {len(discharged_ids)} clause ids; not proved: {[(r["target"], r["status"]) for r in bad]}')
   baseline = json.load(open(bpath)) if os.path.exists(bpath) else None
 
@@ -227,6 +239,8 @@ def main(argv=None):
         record_violation(dict(check='obligation', obligation=o['name'], witness=o.get('witness'), kind='no-failing-input-found',
                               detail=f'{o["text"]}', solver=dict(result='sat', backend=o['backend'], model=o.get('model'),
                                                                loop_free_path=o['loopfree'])))
+      elif r['status'] == 'timeout':        # the solver hung and the job was killed: a lost proof, nothing is known against the code
+        proof_lost.append(dict(target=r['target'], status=r['status'], error=(r['error'] or '')[:500], failed=[], bounded='(none)'))
       elif r['status'] in ('failed',) and r['kind'] == 'lemma':
         broken.append(f'lemma {r["target"]} no longer proves: {[o["name"] for o in failed][:3]}')
       else:
@@ -288,7 +302,7 @@ def main(argv=None):
   rc = 0
   out_lines = []
   for f in known_seen:
-    out_lines.append(f'KNOWN-FINDING: property={prop} {f["id"]} {f["what"]}')
+    out_lines.append(f'KNOWN-FINDING: property={f["property"]} {f["id"]} {f["what"]}')
   for i, v in enumerate(violations):
     d = os.path.join(VERIF, 'replays', prop)
     os.makedirs(d, exist_ok=True)
@@ -326,7 +340,9 @@ def main(argv=None):
                       discharged=sum(1 for o in r['obligations'] if o['result'] == 'unsat'),
                       inlined_real_code=r['inlined'], callee_contracts_used=r['used_contracts'],
                       dropped_by_extraction=r['dropped'], solver_secs=round(sum(o['secs'] for o in r['obligations']), 3),
-                      note=r.get('note'), error=(r['error'] or None) and r['error'][:400]) for r in results],
+                      note=r.get('note'), error=(r['error'] or None) and r['error'][:400],
+                      solver_calls_abandoned_by_watchdog=r.get('watchdog_kills') or [],
+                      contract_read_through_renaming_of_locals=r.get('alpha_map') or {}) for r in results],
       backends=backends,
       bounded=bounded_summary,
       vacuity=dict(functions_with_reachable_exit=sum(1 for r in results if r['covers'] > 0), functions=len(results)),
